@@ -110,7 +110,14 @@ func cmdSelfcheck(argv []string) int {
 	for _, ts := range []string{"20240229120000", "20230229120000", "19000229000000", "20000229235959", "00000101000000", "00010101000000", "99991231235959", "19700101000000", "19691231235959", "20191109211945", "20200601120000", "21000301000000", "20241301000000", "20240431000000", "2024010100000", "20240101006000", "20240101240000", "2024010100000a", "16000229101010", "04000229101010", "01000229101010"} {
 		jobs = append(jobs, job{"time", ts, "", false})
 	}
+	for _, u := range []string{"\xc3\xa9", "a\xc3", "\xc3a", "\xc2\x80", "\xc1\xbf", "\xc0\x80", "\xdf\xbf", "\xe0\xa0\x80", "\xe0\x9f\xbf", "\xed\x9f\xbf", "\xed\xa0\x80", "\xef\xbf\xbd", "\xe4\xb8\xad", "\xe4\xb8", "\xe4", "\xf0\x90\x80\x80", "\xf0\x8f\xbf\xbf", "\xf4\x8f\xbf\xbf", "\xf4\x90\x80\x80", "\xf5\x80\x80\x80", "\xff", "\x80", "\xbf\xbf", "x\xf0\x9f\x98\x80y", "\xf0\x9f\x98", "\xe2\x82\xac1", "\xc3\xa9\xc3\xbc", "1.0\xc3\xa9"} {
+		jobs = append(jobs, job{"utf8", u, "", false})
+	}
 	for i, j := range jobs {
+		if j.eco == "utf8" {
+			cases = append(cases, ReplayCase{ID: fmt.Sprint(i), Func: "VXSelfUTF8Report", Args: []string{strconv.Quote(j.a)}})
+			continue
+		}
 		if j.eco == "time" {
 			cases = append(cases, ReplayCase{ID: fmt.Sprint(i), Func: "VXSelfTimeReport", Args: []string{strconv.Quote(j.a)}})
 			continue
@@ -134,6 +141,10 @@ func cmdSelfcheck(argv []string) int {
 			return 2
 		}
 		want, _ := strconv.Atoi(o.Msg)
+		if j.eco == "utf8" {
+			cfgs = append(cfgs, &Config{ID: fmt.Sprintf("self/utf8/%q", j.a), Pkg: zzhPkg, Func: "VXSelfUTF8", Args: []ArgSpec{ArgStr(j.a), ArgInt(int64(want))}})
+			continue
+		}
 		if j.eco == "time" {
 			cfgs = append(cfgs, &Config{ID: fmt.Sprintf("self/time/%q", j.a), Pkg: zzhPkg, Func: "VXSelfTime", Args: []ArgSpec{ArgStr(j.a), ArgInt(int64(want))}})
 			continue
@@ -220,6 +231,14 @@ func selfcheckStd(p *Program) int {
 	}
 	for _, t := range []string{"{[0-9+\\-a_]}{[0-9a_]}{d}", "{d}{d}{d}{d}", "{[+\\-]}", ""} {
 		ls = append(ls, lemma{"VXStdAtoi", []ArgSpec{ArgTmpl(t)}})
+	}
+	ls = append(ls, lemma{"VXStdFold2", []ArgSpec{ArgTmpl(A(3))}})
+	for _, t := range []string{"{[0-9+\\-a_]}{[0-9a_]}{d}", "{d}{d}{d}{d}", "{[+\\-]}{d}"} {
+		ls = append(ls, lemma{"VXStdParseInt", []ArgSpec{ArgTmpl(t)}})
+	}
+	// for-range rune decoding over all byte strings of length 1-3 and 4-byte strings with a 4-byte lead
+	for _, t := range []string{"{B}", "{B}{B}", "{B}{B}{B}", "{[\\xf0-\\xf7]}{B}{B}{B}"} {
+		ls = append(ls, lemma{"VXStdUTF8", []ArgSpec{ArgTmpl(t)}})
 	}
 	// the time.Parse intrinsic: every valid 14-digit timestamp of eight centuries (leap and non-leap
 	// century years, year 0); all 100 centuries at once is decided by cvc5 only (z3: unknown at 60 s)
